@@ -18,6 +18,27 @@ CLAIMED = {
         note="Trusted: TLC, the transcription of Python list semantics in TraitList.tla (cross-checked on every case "
              "against the builtin list), the concretisation of abstract items (small ints / digit strings).",
         design="4/C05"),
+    "C06": dict(
+        technique=TLA + "TLC enumerates every (ordered dict, validator modes, operation, arguments) case of TraitDict.tla; "
+                  "each is executed on a real TraitDict and a builtin dict; recorded executions incl. the actual "
+                  "(removed, added, changed) notifier arguments are judged by TLC (Trace_TraitDict)",
+        text="Bounded-exhaustive model checking of insertion-ordered dict semantics + the reconstruction law (dicts up to "
+             "2/3 keys, update/|= with up to 2/3 pairs incl. duplicates, coercing/rejecting key and value validators, "
+             "equal-but-distinct float keys) with every case executed on the implementation and judged by TLC; seeded "
+             "histories on top.",
+        note="Trusted: TLC, TraitDict.tla's dict semantics (cross-checked per case against builtin dict), item "
+             "concretisation. Known finding F14 (setdefault with coerced key) is a named deviation action.",
+        design="4/C06"),
+    "C07": dict(
+        technique=TLA + "TLC enumerates every (set, validator, operation, argument sets) case of TraitSet.tla incl. "
+                  "copy/deepcopy/pickle followed by a validating add on the copy; executed on a real TraitSet and a "
+                  "builtin set; recorded executions incl. actual (removed, added) judged by TLC (Trace_TraitSet)",
+        text="Bounded-exhaustive model checking of set semantics + delta law (all subsets of 3 items x all argument "
+             "subsets of 5 items x 1-2 iterables x all mutators) with every case executed on the implementation and "
+             "judged by TLC; seeded histories on top.",
+        note="Trusted: TLC, TraitSet.tla (cross-checked per case against builtin set), item concretisation. Known "
+             "finding F15 (symmetric difference with coerced items) is a named deviation action; F2 fixed in /repo.",
+        design="4/C07"),
 }
 
 NOT_YET = "check not built yet (work in progress in this round; see DESIGN.md section 4 for the planned specification)"
